@@ -631,3 +631,90 @@ _base_scenarios = scenarios
 
 def scenarios():
     return _base_scenarios() + [key_encrypt(False), key_encrypt(True), key_decrypt(), message_decrypt()]
+
+
+# ---------------------------------------------------------------------------------------------------
+def ecdh_encrypt(curve):
+    """ECDHCipherText.encrypt (RFC 6637 section 8): wiring of the externals. curve: 'Curve25519' | 'NIST'"""
+    label = 'C03/ECDHCipherText.encrypt[%s]' % curve
+    CT = 'pgpy.packet.fields.ECDHCipherText'
+
+    def gen(repo):
+        r = scn.Run(repo, CT, 'encrypt', label)
+        ex, st = r.ex, r.st
+        C25519 = E.VExt('OID.Curve25519', ())
+        r.hook('pgpy.constants.EllipticCurveOID', 'Curve25519', scn.const(C25519))
+        oid = C25519 if curve == 'Curve25519' else E.VExt('OID.NIST_P256', ())
+        pk = E.VObj('pgpy.packet.packets.PubKeyV4', 'recipient')
+        km = E.VObj('pgpy.packet.fields.ECDHPub', 'km')
+        r.set('recipient', 'keymaterial', km)
+        r.set('km', 'oid', oid)
+        kdf = E.VObj('pgpy.packet.fields.ECKDF', 'kdf')
+        r.set('km', 'kdf', kdf)
+        FPR = E.VExt('recipient-fingerprint', ())
+        r.hook('pgpy.packet.packets.PubKeyV4', 'fingerprint', scn.const(FPR))
+        RPUB = E.VExt('recipient-public-key', ())
+        r.hook('pgpy.packet.fields.ECDHPub', '__pubkey__', scn.mconst(RPUB))
+        M = z3.Const('M', B)
+        PADDED = z3.Function('PKCS5_PAD8', B, B)
+        ex.hooks[('ext:PKCS7.padder', 'update')] = lambda ex, st, o, a: [(st, E.VBytes(PADDED(ex.seq(a[0], st))))]
+        ex.hooks[('ext:PKCS7.padder', 'finalize')] = lambda ex, st, o, a: [(st, E.VBytes(z3.Empty(B)))]
+        r.hook(CT, '__call__', lambda ex, st, c, a: [(st, E.VObj(CT, 'ct'))])
+        r.hook('pgpy.packet.types.MPI', '__call__', lambda ex, st, c, a: [(st, E.VExt('MPI', (a[0],)))])
+        r.hook('pgpy.packet.fields.ECPoint', 'from_values', scn.method_hook(lambda ex, st, o, a: [(st, E.VExt('ECPoint', tuple(a)))]))
+        Z = z3.Const('KEK', B)
+
+        def derive(ex, st, o, a):
+            st.ghost['kdf_args'] = a
+            return [(st, E.VBytes(Z))]
+        r.hook('pgpy.packet.fields.ECKDF', 'derive_key', scn.method_hook(derive))
+        gens = []
+
+        def generate(ex, st, o, a):
+            g = E.VExt('ephemeral-private-key-%d' % len(gens), ())
+            gens.append(g)
+            st.ghost['generated'] = st.ghost.get('generated', ()) + (g,)
+            return [(st, g)]
+        ex.hooks[('ext', 'x25519.X25519PrivateKey.generate')] = generate
+        ex.hooks[('ext', 'ec.generate_private_key')] = generate
+        for pi, (s, v) in enumerate(r.call(E.VClass(CT), [pk, E.VBytes(M)])):
+            if isinstance(v, E.Raise):
+                r.oblige(s, 'safety(%s)/p%d' % (v.exc, pi), z3.BoolVal(False), v.where)
+                continue
+            gen_ = s.ghost.get('generated', ())
+            r.oblige(s, 'one-fresh-ephemeral-key-per-encryption/p%d' % pi, z3.BoolVal(len(gen_) == 1))
+            if len(gen_) != 1:
+                continue
+            eph = gen_[0]
+            ka = s.ghost.get('kdf_args')
+            r.oblige(s, 'kek-derived-once/p%d' % pi, z3.BoolVal(ka is not None and len(ka) == 4))
+            if ka is None:
+                continue
+            shared = ka[0]
+            okx = isinstance(shared, E.VExt) and shared.name.endswith('.exchange') and shared.args[0] is eph and shared.args[-1] is RPUB
+            r.oblige(s, 'shared-secret=exchange(ephemeral-private,recipient-public)/p%d' % pi, z3.BoolVal(bool(okx)))
+            PA = repo.enum_members('pgpy.constants.PubKeyAlgorithm')
+            r.oblige(s, 'kdf-parameters:curve,ECDH,recipient-fingerprint/p%d' % pi, z3.And(z3.BoolVal(ka[1] is oid and ka[3] is FPR), ex.as_int(ka[2]) == PA['ECDH']))
+            c = s.heap.get(('ct', 'c'))
+            okc = isinstance(c, E.VExt) and c.name == 'aes_key_wrap' and len(c.args) >= 2
+            r.oblige(s, 'C=aes_key_wrap(KEK,padded-m)/p%d' % pi,
+                     z3.And(z3.BoolVal(bool(okc)), z3.And(ex.seq(c.args[0], s) == Z, ex.seq(c.args[1], s) == PADDED(M)) if okc else z3.BoolVal(False)))
+            p = s.heap.get(('ct', 'p'))
+
+            def mentions(t, what):
+                if t is what:
+                    return True
+                if isinstance(t, E.VBuiltin) and isinstance(t.bound, tuple):       # attribute read on an opaque external value
+                    return any(mentions(x, what) for x in t.bound)
+                return isinstance(t, E.VExt) and any(mentions(x, what) for x in list(t.args) + list(t.kws.values()))
+            r.oblige(s, 'ephemeral-public-point-of-that-key-is-sent/p%d' % pi, z3.BoolVal(isinstance(p, E.VExt) and p.name == 'ECPoint' and mentions(p, eph)))
+            r.oblige(s, 'returns-the-new-ciphertext/p%d' % pi, z3.BoolVal(isinstance(v, E.VObj) and v.ref == 'ct'))
+        return r.result()
+    return Scenario(label, CT + '.encrypt', gen, props=('C03', 'C13'))
+
+
+_base_scn2 = scenarios
+
+
+def scenarios():
+    return _base_scn2() + [ecdh_encrypt('Curve25519'), ecdh_encrypt('NIST')]
